@@ -2,6 +2,7 @@ package main
 
 import (
 	"go/ast"
+	"go/token"
 	"go/types"
 	"strings"
 
@@ -193,6 +194,71 @@ func runC14(c *Ctx) {
 
 	// ---- R14d
 	checkReplayNoDirWrite(c)
+
+	if c.Tier == "thorough" {
+		c.Rule("R14e+", "cross-reference (thorough): in both modules, a deferred closure that assigns an error to a variable of the enclosing function assigns to a named result (an assignment to a plain local of a function with unnamed results is lost when the function returns)", 3)
+		checkDeferredErrAssign(c)
+	}
+}
+
+// checkDeferredErrAssign: generalisation of R14e over both modules.
+func checkDeferredErrAssign(c *Ctx) {
+	errT := types.Universe.Lookup("error").Type()
+	c.AllFuncs(false, func(fi *FuncInfo) {
+		info := fi.Info()
+		named := map[types.Object]bool{}
+		if fi.Decl.Type.Results != nil {
+			for _, fld := range fi.Decl.Type.Results.List {
+				for _, nm := range fld.Names {
+					named[info.ObjectOf(nm)] = true
+				}
+			}
+		}
+		returnsErr := false
+		if fi.Decl.Type.Results != nil {
+			for _, fld := range fi.Decl.Type.Results.List {
+				if t := info.TypeOf(fld.Type); t != nil && types.Identical(t, errT) {
+					returnsErr = true
+				}
+			}
+		}
+		if !returnsErr {
+			return
+		}
+		for _, st := range fi.Decl.Body.List {
+			d, ok := st.(*ast.DeferStmt)
+			if !ok {
+				continue
+			}
+			fl, ok := d.Call.Fun.(*ast.FuncLit)
+			if !ok {
+				continue
+			}
+			ast.Inspect(fl.Body, func(m ast.Node) bool {
+				as, ok := m.(*ast.AssignStmt)
+				if !ok || as.Tok == token.DEFINE {
+					return true
+				}
+				for _, l := range as.Lhs {
+					id, ok := l.(*ast.Ident)
+					if !ok {
+						continue
+					}
+					o := info.ObjectOf(id)
+					if o == nil || !types.Identical(o.Type(), errT) {
+						continue
+					}
+					// a variable of the enclosing function (not of the closure)
+					if !(fi.Decl.Pos() <= o.Pos() && o.Pos() < fl.Pos()) {
+						continue
+					}
+					c.funcs[fi.Name] = true
+					c.Check("R14e+", fi.Name+"|deferred assignment to "+o.Name(), as.Pos(), named[o], "the deferred closure assigns an error to %q, which is not a named result of %s: the assignment cannot reach the caller", o.Name(), fi.Name)
+				}
+				return true
+			})
+		}
+	})
 }
 
 // callMayWriteDB: the call is a statement-execution primitive, ApplyChanges,
